@@ -9,6 +9,82 @@ use crate::wire::*;
 
 pub struct P;
 
+/// The refusal seen while awaiting 100 is a redirect: "in every branch the flow that results is usable to
+/// completion" - here that is the receive state, the redirect state behind it, and the request the redirect
+/// leads to, which inherits the Expect header with or without a body of its own.
+fn refused_by_redirect_case(idx: u64, rec: &mut Rec) {
+    use crate::core::{guarded, panic_sig};
+    use ureq_proto::client::flow::{Await100Result, RedirectAuthHeaders, SendRequestResult};
+    let status = [301u16, 302, 303, 307, 308][(idx % 5) as usize];
+    let loc: &[u8] = [&b"/moved"[..], b"http://other.test/moved", b"https://h.test/moved", b"//other.test:8080/x"][(idx / 5 % 4) as usize];
+    let shape = idx / 20 % 4;
+    let policy = if idx / 80 % 2 == 0 { RedirectAuthHeaders::Never } else { RedirectAuthHeaders::SameHost };
+    let method = ["POST", "PUT"][(idx / 160 % 2) as usize];
+    let mut cfg = ReqCfg::new(method, "http://h.test/up").h("expect", b"100-continue").h("content-length", b"5");
+    if shape & 1 != 0 {
+        cfg.orig.push(("authorization".into(), b"Basic abc".to_vec()));
+        cfg.orig.push(("cookie".into(), b"a=b".to_vec()));
+    }
+    if shape & 2 != 0 {
+        cfg.orig.push(("host".into(), b"h.test".to_vec()));
+    }
+    let mut refusal = format!("HTTP/1.1 {} Moved\r\nLocation: ", status).into_bytes();
+    refusal.extend_from_slice(loc);
+    refusal.extend_from_slice(b"\r\nContent-Length: 0\r\n\r\n");
+    let res = guarded(|| -> Result<&'static str, String> {
+        let mut f = build_flow(&cfg).map_err(|e| format!("{:?}", e))?.proceed();
+        write_head_big(&mut f).map_err(|e| format!("head: {:?}", e))?;
+        let mut a = match f.proceed().map_err(|e| format!("{:?}", e))?.ok_or("SendRequest::proceed None")? {
+            SendRequestResult::Await100(a) => a,
+            _ => return Err("a request with Expect and a body did not await 100".into()),
+        };
+        let n = a.try_read_100(&refusal).map_err(|e| format!("try_read_100: {:?}", e))?;
+        if n != 0 || a.can_keep_await_100() {
+            return Err(format!("the complete refusal: consumed {}, still awaiting {}", n, a.can_keep_await_100()));
+        }
+        let r = match a.proceed().map_err(|e| format!("{:?}", e))? {
+            Await100Result::RecvResponse(r) => r,
+            Await100Result::SendBody(_) => return Err("the body is asked for although the server refused".into()),
+        };
+        let (end, obs, consumed, _) = fast_response(r, &refusal)?;
+        if obs.status != status || consumed != refusal.len() {
+            return Err(format!("the refusal was received as status {} with {} of {} bytes consumed", obs.status, consumed, refusal.len()));
+        }
+        let mut red = match end {
+            End::Redirect(r) => r,
+            End::Cleanup(_) => return Err("a 3xx refusal with a Location did not reach the redirect state".into()),
+        };
+        if !red.must_close_connection() {
+            return Err("the connection is offered for reuse after a refusal".into());
+        }
+        let nf = match red.as_new_flow(policy).map_err(|e| format!("as_new_flow: {:?}", e))? {
+            Some(nf) => nf,
+            None => return Ok("not-followed"),
+        };
+        // the request the redirect leads to, to the end: with the method kept (307/308) it has a body and awaits
+        // 100 again, otherwise it is a GET that merely inherits the header
+        let keeps_body = matches!(status, 307 | 308);
+        let mut s = nf.proceed();
+        let head = write_head_big(&mut s).map_err(|e| format!("head of the redirected request: {:?}", e))?;
+        if parse_request_head_strict(&head).is_err() {
+            return Err("the redirected request head is not well-formed".into());
+        }
+        let rr = to_recv_response(s, if keeps_body { b"hello" } else { b"" })?;
+        let (end, obs, _, _) = fast_response(rr, b"HTTP/1.1 200 OK\r\nContent-Length: 2\r\n\r\nok")?;
+        match end {
+            End::Cleanup(_) if obs.status == 200 => Ok(if keeps_body { "followed-with-body" } else { "followed-without-body" }),
+            _ => Err("the redirected exchange did not end in cleanup".into()),
+        }
+    });
+    rec.call();
+    rec.ev(|| format!("{} with Expect (shape {}) refused by {} Location {:?}, policy {:?} -> {:?}", method, shape, status, esc_short(loc, 60), policy, res));
+    match res {
+        Err((l, m)) => rec.fail(&format!("C11/{}", panic_sig(&l, &m)), format!("refusal {} Location {:?}: panic {} at {}", status, esc_short(loc, 60), m, l)),
+        Ok(Err(e)) => rec.fail("C11/refused-by-redirect-not-usable", format!("{} refused by {} Location {:?} (shape {}): {}", method, status, esc_short(loc, 60), shape, e)),
+        Ok(Ok(k)) => rec.cov(&format!("refused-by-redirect/{}", k)),
+    }
+}
+
 #[derive(Clone, Copy, Debug, PartialEq, Eq)]
 enum Branch {
     /// look until decided
@@ -253,9 +329,15 @@ impl Property for P {
         ]
     }
     fn workloads(&self, tier: Tier) -> Vec<Workload> {
-        vec![Workload::new("handshakes", tier.pick(12_000, 2_000_000), false, "random handshake scenarios")]
+        vec![
+            Workload::new("handshakes", tier.pick(12_000, 2_000_000), false, "random handshake scenarios"),
+            Workload::new("refused-by-redirect", 5 * 4 * 4 * 2 * 2, true, "the refusal is a 3xx with a Location (same / other authority) x request shapes (authorization, cookie, explicit Host) x policy x POST/PUT: receive it, follow it, run the request it leads to to the end"),
+        ]
     }
     fn run_case(&self, wl: &str, idx: u64, seed: u64, rec: &mut Rec) {
+        if wl == "refused-by-redirect" {
+            return refused_by_redirect_case(idx, rec);
+        }
         let mut rng = Rng::derive(seed, wl, idx);
         case(&mut rng, idx, rec)
     }
@@ -269,6 +351,8 @@ impl Property for P {
         v.push(("look/final-with-fields/inside-rest-of-head".into(), 10));
         v.push(("late-100-twice".into(), 50));
         v.push(("flow-produced-by-a-redirect".into(), 100));
+        v.push(("refused-by-redirect/not-followed".into(), 20));
+        v.push(("refused-by-redirect/followed-without-body".into(), 20));
         v.push(("caller-goes-by-return-value/trickle".into(), 100));
         for b in ["branch/Got100/SendBody", "branch/Late100/SendBody", "branch/GiveUp/SendBody", "branch/Refused/RecvResponse"] {
             v.push((b.to_string(), 100));
